@@ -69,8 +69,10 @@ class P(Prop):
                 out.append(self.gen_table(rng))
             elif u < 0.78:
                 out.append(self.gen_equal(rng))
-            elif u < 0.9:
+            elif u < 0.88:
                 out.append(self.gen_run(rng))
+            elif u < 0.94:
+                out.append(self.gen_equal_sim(rng))
             else:
                 out.append(self.gen_sim(rng))
         if tier == "thorough" and not override:
@@ -128,6 +130,9 @@ class P(Prop):
         for i in range(ns):
             comps.append({"name": f"g{i}", "cls": rng.choice(["genset", "genset", "generator", "fuelcell"]),
                           "swb": rng.choice(swbs), "rated": Fraction(rng.randint(2, 30) * 100)})
+        for c in comps:
+            if c["cls"] == "fuelcell":       # 1-3 modules; the stack may be larger or smaller than the converter rating
+                c["fc"] = {"modules": rng.choice([1, 2, 3]), "stack_factor": rng.choice([1, Fraction(6, 5), Fraction(3, 4), Fraction(3, 2)])}
         for s in swbs:  # every switchboard needs a source
             if not any(c["swb"] == s for c in comps):
                 comps.append({"name": f"gx{s}", "cls": "genset", "swb": s, "rated": Fraction(rng.randint(2, 30) * 100)})
@@ -144,6 +149,22 @@ class P(Prop):
         dur = [Fraction(rng.randint(1, 40) * 15) for _ in range(n)]
         return {"stream": "run", "plant": {"comps": comps, "breakers": breakers, "swbs": swbs}, "pct": pct,
                 "prop": prop, "aux": aux, "dur": dur}
+
+    def gen_equal_sim(self, rng):
+        """run_simulation with the equal-size interface on a plant of N equal gensets over 1-2 switchboards (tie closed); the
+        series is short, so its length often equals the number of gensets on a switchboard"""
+        nswb = rng.choice([1, 2, 2])
+        per = [rng.randint(1, 3) for _ in range(nswb)]
+        r = Fraction(rng.randint(2, 20) * 50)
+        comps = [{"name": f"g{s}{k}", "cls": "genset", "swb": s + 1, "rated": r} for s in range(nswb) for k in range(per[s])]
+        comps += [{"name": f"l{s + 1}", "cls": "load", "swb": s + 1, "rated": Fraction(20000), "eff": [1.0]} for s in range(nswb)]
+        f = rng.choice(EXACT_F)
+        N = sum(per)
+        n = rng.choice([2, 3, per[0], per[-1], rng.randint(2, 6)])
+        n = max(n, 2)
+        loads = [[Fraction(rng.randint(0, 64), 64) * N * r * f / nswb for _ in range(n)] for _s in range(nswb)]
+        return {"stream": "equal_sim", "plant": {"comps": comps, "breakers": [[1, 2]] if nswb == 2 else [], "swbs": list(range(1, nswb + 1))},
+                "per": per, "r": r, "f": f, "loads": loads}
 
     def gen_sim(self, rng):
         """run_simulation with the load-table interface: two switchboards, one load each; the load of one switchboard may be
@@ -186,6 +207,28 @@ class P(Prop):
             return {"rs": [float(s.rated_power) for s in srcs], "status": [[bool(x) for x in status[:, t]] for t in range(n)],
                     "out": [[float(x) for x in outp[:, t]] for t in range(n)], "load": [float(x) + float(case["const"]) for x in case["series"]],
                     "f": float(case["f"])}
+        if st == "equal_sim":
+            from feems.components_model.utility import IntegrationMethod
+            from feems.runsimulation import EqualEngineSizeAllClosedSimulationInterface, run_simulation
+            sysm, objs = pg.build_electric_system(case["plant"])
+            byname = {d["name"]: o for d, o in zip(case["plant"]["comps"], objs)}
+            n = len(case["loads"][0])
+            for s_, l in enumerate(case["loads"]):
+                byname[f"l{s_ + 1}"].power_input = np.array([float(x) for x in l])
+            for d, o in zip(case["plant"]["comps"], objs):
+                if d["cls"] == "genset":
+                    o.load_sharing_mode = np.zeros(n)
+            sysm.set_time_interval(np.ones(n), IntegrationMethod.sum_with_time)
+            pms = EqualEngineSizeAllClosedSimulationInterface(swb2n_gensets={s_ + 1: k for s_, k in enumerate(case["per"])},
+                                                              rated_power_gensets=float(case["r"]), n_bus_ties=len(case["plant"]["breakers"]),
+                                                              maximum_allowable_genset_load_percentage=float(case["f"]))
+            with np.errstate(all="ignore"):
+                run_simulation(electric_power_system=sysm, simulation_interface=pms)
+            srcs = list(sysm.power_sources)
+            status = np.array([np.broadcast_to(np.asarray(s_.status, dtype=bool), (n,)) for s_ in srcs])
+            outp = np.array([np.broadcast_to(np.asarray(s_.power_output, dtype=float), (n,)) for s_ in srcs])
+            return {"numbers": [int(status[:, t].sum()) for t in range(n)], "out": [[float(x) for x in outp[:, t]] for t in range(n)],
+                    "status": [[bool(x) for x in status[:, t]] for t in range(n)]}
         if st == "table":
             from RunFeemsSim.pms_basic import PmsLoadTable, min_load_table_dict
             t = PmsLoadTable(min_load_table_dict([float(r) for r in case["rs"]], float(case["f"])))
@@ -222,6 +265,10 @@ class P(Prop):
         if st == "equal":
             lk = core.coq_list([f"({core.coq_q(x)}, {core.coq_Z(k)})" for x, k in zip(case["loads"], obs["numbers"])])
             return f"check_equal_size {core.coq_Z(case['N'])} {core.coq_q(case['r'])} {core.coq_q(case['f'])} {lk}"
+        if st == "equal_sim":
+            tot = [sum(l[t] for l in case["loads"]) for t in range(len(case["loads"][0]))]
+            lk = core.coq_list([f"({core.coq_q(x)}, {core.coq_Z(k)})" for x, k in zip(tot, obs["numbers"])])
+            return f"check_equal_size {core.coq_Z(sum(case['per']))} {core.coq_q(case['r'])} {core.coq_q(case['f'])} {lk}"
         rs = core.coq_q_list([Fraction(r) for r in obs["rs"]])
         f = core.coq_q(Fraction(obs["f"]))
         parts = [f"check_run_step {rs} {f} {core.coq_q(Fraction(l))} {core.coq_bool_list(s)}"
@@ -242,6 +289,19 @@ class P(Prop):
                     return f"selected capacity fell from {prev[1]} (load {prev[0]}) to {cap} (load {x})"
                 prev = (x, cap)
             return None
+        if st == "equal_sim":
+            tot = [sum(l[t] for l in case["loads"]) for t in range(len(case["loads"][0]))]
+            r_, f_ = float(case["r"]), float(case["f"])
+            for t, (x, st_, o) in enumerate(zip(tot, obs["status"], obs["out"])):
+                for b, out in zip(st_, o):
+                    if not b and out != 0:
+                        return f"run_simulation (equal-size) step {t}: a stopped genset delivers {out} kW"
+                    if b and x <= sum(case["per"]) * case["r"] * case["f"] and out / r_ > f_ * (1 + 1e-9):
+                        return f"run_simulation (equal-size) step {t}: a running genset is loaded to {out / r_} > {f_} at a total load of {float(x)} kW"
+                if abs(sum(o) - float(x)) > 1e-9 * max(1.0, float(x)) and any(st_):
+                    return f"run_simulation (equal-size) step {t}: the gensets deliver {sum(o)} kW for a load of {float(x)} kW"
+            case = {**case, "N": sum(case["per"]), "loads": tot}
+            st = "equal"
         if st == "equal":
             N, c = case["N"], case["r"] * case["f"]
             prev = None
@@ -291,6 +351,9 @@ class P(Prop):
                 t.append("equal-ratings-present")
         if case["stream"] == "sim":
             t.append("constant-load-given-as-" + case["const_as"])
+        if case["stream"] == "equal_sim":
+            if len(case["loads"][0]) in case["per"]:
+                t.append("series-length-equals-gensets-on-a-switchboard")
         if case["stream"] == "run":
             t.append(f"nswb={len(case['plant']['swbs'])}")
             src = [c for c in case["plant"]["comps"] if pg.kind_of(c["cls"]) == "Source"]
